@@ -618,8 +618,32 @@ def gen_config_lazy(rng):
     return c
 
 
+def gen_config_conv_queue(rng):
+    """source -> buffer -> multi-worker machine -> ONE congested conveyor -> slow machine -> buffer -> sink: several workers of one
+    node wait for the same belt entrance at once (the entrance's waiting line has more than one request of equal priority)"""
+    def nd(kind, **kw):
+        d = dict(kind=kind, ins=[], outs=[], style="const", blocking=True, setup=0, wcap=1, insel=("FA",), outsel=("FA",), delays=[0])
+        d.update(kw)
+        return d
+    nodes = [nd("source", delays=[1]), nd("machine", wcap=rng.choice([2, 3, 3]), delays=[rng.choice([1, 2])], setup=rng.choice([0, 2, 4]),
+                                          outsel=rng.choice([("FA",), ("C", 0), ("RR",)])),
+             nd("machine", delays=[rng.choice([4, 5, 7])]), nd("sink")]
+    edges = [dict(kind="buffer", cap=rng.choice([3, 4, 6]), mode="FIFO", delays=[0], style="const", src=0, dst=1),
+             dict(kind="conv", ckind=rng.choice(["slot", "slot", "cont"]), cap=rng.choice([1, 2, 3]), acc=rng.choice([0, 1]), src=1, dst=2),
+             dict(kind="buffer", cap=2, mode="FIFO", delays=[0], style="const", src=2, dst=3)]
+    connects = [(i, e["src"], e["dst"]) for i, e in enumerate(edges)]
+    for (i, s_, d_) in connects:
+        nodes[s_]["outs"].append(i)
+        nodes[d_]["ins"].append(i)
+    order = ["N%d" % i for i in range(len(nodes))] + ["E%d" % i for i in range(len(edges))]
+    rng.shuffle(order)
+    return dict(model="factory", T=rng.choice([30, 40]), nodes=nodes, edges=edges, connects=connects, order=order, model_skip=True)
+
+
 def gen_config_conv(rng):
     """a factory in which some edges are conveyors: run on the implementation only and judged by the oracle"""
+    if rng.random() < 0.12:
+        return gen_config_conv_queue(rng)
     if rng.random() < 0.25:
         return gen_config_conv_fanout(rng)
     sc = rng.random() < 0.3
